@@ -22,7 +22,7 @@ import (
 )
 
 // behaviours of a child process
-var Behaviours = []string{"exit0", "exit3", "sigusr1", "trapterm", "ignoreterm", "fork", "forkignore", "orphan0"}
+var Behaviours = []string{"exit0", "exit3", "sigusr1", "trapterm", "ignoreterm", "fork", "forkignore", "orphan0", "orphanq"}
 
 func script(beh, dir, name string, delayMs int) string {
 	pre := fmt.Sprintf("echo $$ > %s/%s.pid; ", dir, name)
@@ -43,6 +43,9 @@ func script(beh, dir, name string, delayMs int) string {
 	case "orphan0":
 		// the leader exits 0; a child it leaves behind (same process group) keeps the inherited output pipe open
 		return pre + fmt.Sprintf("(sleep 30; echo late) & echo $! > %s/%s.c1; sleep %s; exit 0", dir, name, d)
+	case "orphanq":
+		// the same, but the child does not hold the leader's output: the leader's exit is noticed at once
+		return pre + fmt.Sprintf("(sleep 30) >/dev/null 2>&1 & echo $! > %s/%s.c1; sleep %s; exit 0", dir, name, d)
 	case "forkignore":
 		return pre + fmt.Sprintf("trap '' TERM; sleep 30 & echo $! > %s/%s.c1; wait; exit 0", dir, name)
 	}
@@ -86,7 +89,16 @@ type Options struct {
 	// termination event must still arrive once the reader starts (events may wait, they may not get lost)
 	Burst         bool
 	PauseReaderMs int
-	Fake          func(r *rec.Recorder) supvmodel.ProcessSupervisor // nil: the real LocalSupervisor
+	// Fixed: behaviours (and delays) of the first processes, without random operations - e.g. a leader that exits and
+	// leaves a child holding its output, met only by the Kill of the clean-up (even index) or by a Terminate (odd index)
+	Fixed []FixedProc
+	Fake  func(r *rec.Recorder) supvmodel.ProcessSupervisor // nil: the real LocalSupervisor
+}
+
+// FixedProc is a scripted process of Options.Fixed.
+type FixedProc struct {
+	Beh   string
+	Delay int
 }
 
 // Run executes one random program and returns the recorded events.
@@ -144,6 +156,9 @@ func Run(opt Options) []rec.Event {
 		ops := rnd.Intn(5)
 		if opt.Burst {
 			beh, delay, ops = []string{"exit0", "exit3"}[rnd.Intn(2)], 0, 0
+		}
+		if i < len(opt.Fixed) {
+			beh, delay, ops = opt.Fixed[i].Beh, opt.Fixed[i].Delay, 0
 		}
 		seed := rnd.Int63()
 		idx := i
@@ -223,7 +238,9 @@ func Run(opt Options) []rec.Event {
 					r.Emit(name, "KillRet", "name", "ghost-"+name, "err", errs(err), "gone", true, "past", false)
 				}
 			}
-			if real && (beh == "orphan0" || beh == "fork") && !opt.Burst {
+			// (every other process of behaviour orphan0 is left to the Kill of the clean-up: a group whose leader was
+			//  reaped and whose member still holds the output must be killed by it, F-C19-2)
+			if real && (beh == "fork" || beh == "orphanq" || (beh == "orphan0" && idx%2 == 1)) && !opt.Burst {
 				// Terminate delivers SIGTERM to the whole group - also when the leader has exited by then and only
 				// members are left.  Observed 150 ms after the start at the earliest (every member has its own
 				// signal dispositions by then) and 400 ms after the call (no member of these behaviours ignores SIGTERM).
